@@ -764,6 +764,7 @@ class Interp:
         self.reached_nodes = set()
         self.binding_atoms = set()
         self.unrefined_type_tests = set()
+        self.decided_quantifiers = set()
         self.summary_depth = 0
         self.unroll_depth = 0
         self.unroll_index = []    # position in every enclosing unrolled loop / comprehension
@@ -1195,6 +1196,8 @@ class Interp:
                     if isinstance(t, ast.Name):
                         ci.attrs[t.id] = v
                         cframe.store.vars[t.id] = v
+                        if len(v) == 1 and next(iter(v))[0] == 'fn' and next(iter(v))[1] in ci.methods.values():
+                            ci.methods[t.id] = next(iter(v))[1]       # __str__ = describe
             elif isinstance(b, (ast.Expr, ast.Pass)):
                 pass
             else:
@@ -1792,7 +1795,11 @@ class Interp:
                 if new.atom[2] == ('caught', id(h)):
                     continue
                 if new.atom[2] != r.atom[2] or r.atom[2] in ('*', '?'):
-                    self.ev_relabel.setdefault((id(h), id(new.origin)), (fr.qual, h, new, r))
+                    k_ = (id(h), id(new.origin))
+                    cur = self.ev_relabel.get(k_)
+                    # keep the instance whose two lines are both known, if there is one
+                    if cur is None or ((cur[2].atom[2] in ('*', '?') or cur[3].atom[2] in ('*', '?')) and new.atom[2] not in ('*', '?') and r.atom[2] not in ('*', '?')):
+                        self.ev_relabel[k_] = (fr.qual, h, new, r)
 
     # -- structural pattern matching --------------------------------------------------------------------------------------------
     def st_Match(self, fr, st, store, out):
@@ -2481,7 +2488,7 @@ class Interp:
                     self.heap[key] = new
                     self.changed = True
                     self.why.append(('heap', key, new - old))
-                ek = (id(node), id(site))
+                ek = (id(node), id(site), attr)
                 ev = self.ev_store.get(ek)
                 if ev is None:
                     self.ev_store[ek] = {'node': node, 'site': site, 'qual': sq, 'cls': {base_class(cls)}, 'attr': attr, 'val': val, 'ctor': ctor}
@@ -2807,6 +2814,10 @@ class Interp:
     ex_Await = ex_Yield
 
     def display(self, fr, node, kind):
+        if kind in ('list', 'tuple') and len(node.elts) == 1 and isinstance(node.elts[0], ast.Starred):
+            sv = self.eval(fr, node.elts[0].value)
+            if sv and all(a[0] == 'lines' for a in sv):
+                return sv           # [*rows]: a copy of the source lines
         vals = []
         exact = True
         extra = BOT
@@ -3260,6 +3271,11 @@ class Interp:
         return r
 
     @staticmethod
+    def mark_moved(val):
+        """elements of the source lines that were filtered / shifted: their position in the new sequence is no longer their line"""
+        return frozenset(('str', a[1], ('elem', a[2][1], 'moved')) if a[0] == 'str' and isinstance(a[2], tuple) and a[2][0] == 'elem' else a for a in val)
+
+    @staticmethod
     def const_int(val):
         if val is not None and len(val) == 1:
             a = next(iter(val))
@@ -3291,8 +3307,15 @@ class Interp:
                     out = join(out, av(STR_S if a[1] == 'str' else BYTES))
             elif is_str_atom(a):
                 out = join(out, av(('str', str_taint(a), 'maybe-size' if (k == 'str' and a[2] == 'maybe-size') else None)))
-            elif k in ('list', 'bytes', 'lines'):
-                out = join(out, av(a) if k != 'lines' else av(('list', av(('str', 'u', None)))))
+            elif k == 'lines':
+                if known and clo == 0 and hi is None:
+                    out = join(out, av(a))          # rows[:] is a copy
+                elif known and clo > 0:
+                    out = join(out, av(('list', av(('str', 'u', ('elem', a, 'moved'))))))
+                else:
+                    out = join(out, av(('list', av(('str', 'u', None)))))
+            elif k in ('list', 'bytes'):
+                out = join(out, av(a))
             elif a == TOP or a == EXT:
                 out = join(out, av(a))
         return out
@@ -3460,6 +3483,10 @@ class Interp:
             toks = [a for a in itv if a[0] == 'toks']
             if toks and all(a[0] in ('toks',) for a in itv):
                 return frozenset(('toks', a[1], None, a[3]) for a in toks)
+            if itv and all(a[0] == 'lines' for a in itv):
+                if not node.generators[0].ifs:
+                    return itv      # an unfiltered copy of the source lines: same lines at the same positions
+                return av(('list', self.mark_moved(elem)))
         return out
 
     def ex_GeneratorExp(self, fr, node):
@@ -3473,6 +3500,16 @@ class Interp:
         elem = BOT
         for r in res:
             elem = join(elem, erase_tags(r[0]))
+        if len(node.generators) == 1 and isinstance(node.elt, ast.Name) and isinstance(node.generators[0].target, ast.Name) \
+                and node.elt.id == node.generators[0].target.id:
+            try:
+                itv = self.eval(fr, node.generators[0].iter)
+            except Unreachable:
+                itv = BOT
+            if itv and all(a[0] == 'lines' for a in itv):
+                if not node.generators[0].ifs:
+                    return itv
+                return av(('list', self.mark_moved(elem)))
         return av(('list', elem))
 
     def ex_SetComp(self, fr, node):
@@ -3544,8 +3581,6 @@ class Interp:
             if r is not None:
                 return r
         # generic: truthiness of the value
-        if value is None and self.mentions_type_test(test):
-            self.unrefined_type_tests.add(id(test))
         alts = None
         if value is not None:
             v = value
@@ -3555,6 +3590,8 @@ class Interp:
             fr.call_alts.pop(id(test), None)
             v = self.eval(fr, test)
             alts = fr.call_alts.pop(id(test), None) if isinstance(test, ast.Call) else None
+        if value is None and self.mentions_type_test(test) and id(test) not in self.decided_quantifiers:
+            self.unrefined_type_tests.add(id(test))
         if alts:
             # the callee returns truthy / falsy values on paths with different facts
             tf = [fs for (val, fs) in alts if {self.truth(a) for a in val} & {'t', '?'}]
@@ -3892,6 +3929,25 @@ class Interp:
         """was the value of this expression compared against program-chosen bounds on both sides on every path to here"""
         s_ = self.sym_of(fr, expr) if expr is not None else None
         return s_ is not None and ('lb', s_) in fr.store.facts and ('ub', s_) in fr.store.facts
+
+    def bytes_bounded(self, fr, call):
+        """bytes([v, ...]) / data.append(v) / data.extend([v, ...]): was every user-sized v range-checked on the way here"""
+        if not isinstance(call, ast.Call) or len(call.args) != 1 or call.keywords:
+            return False
+        arg = call.args[0]
+        elts = arg.elts if isinstance(arg, (ast.List, ast.Tuple)) else [arg]
+        for e in elts:
+            if isinstance(e, ast.Starred):
+                return False
+            try:
+                v = self.eval(fr, e)
+            except (AnalysisError, Unreachable):
+                return False
+            if all(is_int_atom(a) and a != INT_U and a[0] != 'idx' for a in v):
+                continue
+            if not all(is_int_atom(a) for a in v) or not self.is_bounded(fr, e):
+                return False
+        return True
 
     @staticmethod
     def safe_bound(val):
@@ -5008,7 +5064,7 @@ class Interp:
                     elif a[0] == 'seq':
                         for e in a[2]:
                             elems = join(elems, e)
-                    if any(b == INT_U or b[0] == 'idx' for b in elems):
+                    if any(b == INT_U or b[0] == 'idx' for b in elems) and not self.bytes_bounded(fr, node):
                         self.library_raise(fr, 'ValueError', node)     # bytes([v]) needs 0 <= v < 256
                         break
             return av(BYTES)
@@ -5289,6 +5345,10 @@ class Interp:
                 for e in (es if mode == 'exact' else [es]):
                     vals_ = join(vals_, e)
                 ts = {self.truth(a) for a in vals_}
+                if ts <= {'t', 'f'}:
+                    # every element is known to be true or known to be false: the outcome depends on which elements there
+                    # are, not on a test the interpretation could not follow
+                    self.decided_quantifiers.add(id(node))
                 if name == 'any' and ts <= {'f'}:
                     return av(const(False))     # no element can be true (also when there is none)
                 if name == 'all' and ts <= {'t'}:
@@ -5336,6 +5396,8 @@ class Interp:
                 if not elems:
                     return av(('list', BOT))
                 elems = self.fresh_elem(fr, elems, node)
+                if name == 'filter':
+                    elems = self.mark_moved(elems)
                 if name == 'filter' and pos[0] == av(NONE):
                     return av(('list', erase_tags(frozenset(a for a in elems if a != NONE))))
                 if name == 'filter':
@@ -5364,6 +5426,11 @@ class Interp:
             fr.call_alts[id(node)] = alts
             return out
         if name in ('iter', 'next'):
+            if x is not None and any(a[0] == 'lines' for a in x):
+                if name == 'next':
+                    raise self.err(node, 'next() on the source lines (which line is which afterwards is not followed)')
+                if all(a[0] == 'lines' for a in x):
+                    return x
             if x is not None:
                 mode, elems = self.iteration(fr, x, node)
                 if mode == 'exact':
@@ -5470,7 +5537,7 @@ class Interp:
                         elif b[0] == 'seq':
                             for e in b[2]:
                                 vals = join(vals, e)
-                    if any(b == INT_U or b[0] == 'idx' for b in vals):
+                    if any(b == INT_U or b[0] == 'idx' for b in vals) and not self.bytes_bounded(fr, node):
                         self.library_raise(fr, 'ValueError', node)     # a byte must be in range(0, 256)
                         break
                 return av(NONE), None
@@ -6184,6 +6251,7 @@ class Interp:
                     ev.clear()
                 self.approx_sites.clear()
                 self.unrefined_type_tests.clear()
+                self.decided_quantifiers.clear()
                 self.reached.clear()
                 self.reached_nodes.clear()
                 self.mutated_fields.clear()
